@@ -318,6 +318,61 @@ def reload_case(cfg, mode, xi, yi, k, maxsteps=90):
     return bad, warmed and len(log) > 0
 
 
+def sparse_query_case(cfg, mode, xi, yi, k, j):
+    """load X; k steps; ask for the statistics; load Y; j steps; ask again — the statistics functions are called at these
+    two points ONLY (an observer whose answer depends on when it was asked before is wrong)."""
+    from architecture_simulator.simulation.riscv_simulation import RiscvSimulation
+    from architecture_simulator.isa.parser_exceptions import ParserException
+
+    ib, bb, ways, policy, pen = cfg
+    sim = RiscvSimulation(mode=mode, instruction_cache=rv.cache_opts(ib, bb, ways, "wb", policy, pen))
+    bad = []
+    reached = []
+    for phase, (ti, steps) in enumerate(((xi, k), (yi, j))):
+        try:
+            sim.load_program(TEXTS[ti])
+        except ParserException:
+            pass
+        log = spy.spy_fetch(sim)
+        n = 0
+        try:
+            while n < steps and not sim.is_done():
+                sim.step()
+                n += 1
+        except rv.InstructionExecutionException:
+            pass
+        reached.append(n == steps)
+        refc = RefCache(ib, bb, ways, "wb", policy, pen)
+        last = False
+        for a, _o in log:
+            last = refc.access(a, False, True)[0]
+        st = sim.get_instruction_cache_stats()
+        if (int(st["accesses"]), int(st["hits"])) != (len(log), refc.hits) or (log and bool(st["last_hit"]) != last):
+            bad.append(("sparse-query", f"statistics asked after {n} steps of program {ti} (phase {phase + 1}): {st}; fetches {len(log)}, reference hits {refc.hits}, last hit {last}"))
+            break
+    return bad, all(reached)
+
+
+def sparse_shard(shard):
+    cfg, mode, maxk, maxj, xi = shard
+    p = Partial()
+    for xi in (xi,):
+        for yi in range(len(TEXTS) - 1):
+            for k in range(maxk + 1):
+                for j in range(maxj + 1):
+                    bad, reached = sparse_query_case(cfg, mode, xi, yi, k, j)
+                    if not reached:
+                        continue  # a program ended earlier: covered by smaller k / j
+                    p.evaluations += 1
+                    if k and j:
+                        p.nontrivial += 1
+                        p.counters["statistics-asked-only-twice"] += 1
+                    for f, d in bad:
+                        p.violation(dict(oracle="icache-reload", field=f), dict(kind="icache-sparse", cfg=list(cfg), mode=mode, x=xi, y=yi, k=k, j=j),
+                                    f"icache i{cfg[0]}b{cfg[1]}w{cfg[2]} {cfg[3]} {mode}: load P{xi}; {k} steps; stats; load P{yi}; {j} steps; stats: {d}", size=(k + j, xi, yi))
+    return p
+
+
 def reload_shard(shard):
     cfg, mode, maxk = shard
     p = Partial()
@@ -339,6 +394,9 @@ def reload_shard(shard):
 
 
 def replay(case):
+    if case["kind"] == "icache-sparse":
+        bad, _r = sparse_query_case(tuple(case["cfg"]), case["mode"], case["x"], case["y"], case["k"], case["j"])
+        return [(dict(oracle="icache-reload", field=f), d) for f, d in bad]
     if case["kind"] == "icache-reload":
         bad, _n = reload_case(tuple(case["cfg"]), case["mode"], case["x"], case["y"], case["k"])
         return [(dict(oracle="icache-reload", field=f), d) for f, d in (bad or [])]
@@ -357,7 +415,7 @@ def run(ctx):
                 "executed instructions in single-cycle mode); hits, last_hit and the cycle surcharge equal a reference cache fed the observed fetch "
                 "addresses. Reload clause: every history load X; k steps; load Y; run (X, Y from two programs sharing cache sets and the empty program, k = 0..14): "
                 "empty cache and zero counters right after the load, every later fetch returns Y's instruction, accounting restarts from an empty "
-                "reference cache, and for k = 0 every step equals the same step on a fresh simulation. Non-trivial = run with both hits and misses / loop run with an eviction / reload after an earlier load.")
+                "reference cache, and for k = 0 every step equals the same step on a fresh simulation; plus histories in which the statistics are asked for at two points only (after k steps of X and after j steps of Y, all k, j). Non-trivial = run with both hits and misses / loop run with an eviction / reload after an earlier load.")
     ctx.assumptions += ["which wrong-path instructions are fetched in five-stage mode is taken from the observed fetch stream, not predicted"]
     steps = 24 if ctx.quick else 40
     nstates = 1 if ctx.quick else 2
@@ -376,4 +434,8 @@ def run(ctx):
     rc = [(0, 0, 1, "lru", 2), (1, 0, 1, "lru", 0), (0, 1, 2, "plru", 3), (1, 1, 2, "lru", 1), (0, 0, 4, "plru", 1), (0, 1, 4, "plru", 0)] + ([(0, 2, 1, "lru", 2), (1, 0, 4, "plru", 2)] if thorough else [])
     part = pmap(reload_shard, [(c, m, 14) for c in rc for m in (rv.SINGLE, rv.FIVE)])
     ctx.space("icache-reload", part, t0, histories="load X; k steps (k = 0..14); load Y; run to completion, X, Y in {P_a, P_b, empty}")
+    t0 = time.time()
+    part = pmap(sparse_shard, [(c, m, 9 if ctx.quick else 12, 12 if ctx.quick else 24, xi) for c in rc[:4] + rc[6:] for m in (rv.SINGLE, rv.FIVE) for xi in range(len(TEXTS) - 1)])
+    ctx.space("icache-statistics-asked-twice", part, t0, histories="load X; k steps; statistics; load Y; j steps; statistics (no other statistics call)", k="0..9 (12)", j="0..12 (24)")
+    ctx.require("statistics-asked-only-twice")
     ctx.require("icache-eviction", "icache-hit", "icache-miss", "icache-loop-eviction", "reload-over-warm-cache", "fetch-stream-distinguishes-plru-from-lru", "control-transfer-to-unaligned-target")
